@@ -1,7 +1,22 @@
 
+(** val negb : bool -> bool **)
+
+let negb = function
+| true -> false
+| false -> true
+
 type nat =
 | O
 | S of nat
+
+type ('a, 'b) sum =
+| Inl of 'a
+| Inr of 'b
+
+(** val fst : ('a1 * 'a2) -> 'a1 **)
+
+let fst = function
+| (x, _) -> x
 
 (** val snd : ('a1 * 'a2) -> 'a2 **)
 
@@ -61,6 +76,13 @@ module Nat =
 let rec rev = function
 | [] -> []
 | x :: l' -> app (rev l') (x :: [])
+
+(** val rev_append : 'a1 list -> 'a1 list -> 'a1 list **)
+
+let rec rev_append l l' =
+  match l with
+  | [] -> l'
+  | a :: l0 -> rev_append l0 (a :: l')
 
 (** val concat : 'a1 list list -> 'a1 list **)
 
@@ -274,6 +296,18 @@ module Coq_Pos =
              | XH -> true
              | _ -> false)
 
+  (** val coq_Nsucc_double : n -> n **)
+
+  let coq_Nsucc_double = function
+  | N0 -> Npos XH
+  | Npos p -> Npos (XI p)
+
+  (** val coq_Ndouble : n -> n **)
+
+  let coq_Ndouble = function
+  | N0 -> N0
+  | Npos p -> Npos (XO p)
+
   (** val coq_lor : positive -> positive -> positive **)
 
   let rec coq_lor p q =
@@ -291,6 +325,24 @@ module Coq_Pos =
     | XH -> (match q with
              | XO q0 -> XI q0
              | _ -> q)
+
+  (** val coq_land : positive -> positive -> n **)
+
+  let rec coq_land p q =
+    match p with
+    | XI p0 ->
+      (match q with
+       | XI q0 -> coq_Nsucc_double (coq_land p0 q0)
+       | XO q0 -> coq_Ndouble (coq_land p0 q0)
+       | XH -> Npos XH)
+    | XO p0 ->
+      (match q with
+       | XI q0 -> coq_Ndouble (coq_land p0 q0)
+       | XO q0 -> coq_Ndouble (coq_land p0 q0)
+       | XH -> N0)
+    | XH -> (match q with
+             | XO _ -> N0
+             | _ -> Npos XH)
 
   (** val iter_op : ('a1 -> 'a1 -> 'a1) -> positive -> 'a1 -> 'a1 **)
 
@@ -368,6 +420,17 @@ module N =
                   | N0 -> Gt
                   | Npos m' -> Coq_Pos.compare n' m')
 
+  (** val eqb : n -> n -> bool **)
+
+  let eqb n0 m =
+    match n0 with
+    | N0 -> (match m with
+             | N0 -> true
+             | Npos _ -> false)
+    | Npos p -> (match m with
+                 | N0 -> false
+                 | Npos q -> Coq_Pos.eqb p q)
+
   (** val leb : n -> n -> bool **)
 
   let leb x y =
@@ -381,6 +444,13 @@ module N =
     match compare x y with
     | Lt -> true
     | _ -> false
+
+  (** val min : n -> n -> n **)
+
+  let min n0 n' =
+    match compare n0 n' with
+    | Gt -> n'
+    | _ -> n0
 
   (** val div2 : n -> n **)
 
@@ -432,6 +502,15 @@ module N =
     | Npos p -> (match m with
                  | N0 -> n0
                  | Npos q -> Npos (Coq_Pos.coq_lor p q))
+
+  (** val coq_land : n -> n -> n **)
+
+  let coq_land n0 m =
+    match n0 with
+    | N0 -> N0
+    | Npos p -> (match m with
+                 | N0 -> N0
+                 | Npos q -> Coq_Pos.coq_land p q)
 
   (** val shiftr : n -> n -> n **)
 
@@ -658,6 +737,90 @@ module Z =
     pred (opp a)
  end
 
+type err =
+| EEnd
+| EDec
+| ERun
+| EOut
+| EFuel
+
+type 'a prog =
+| Ret of 'a
+| Throw of err
+| Next of (n -> 'a prog)
+| Peek of (n -> 'a prog)
+| Reserve of n * 'a prog
+
+(** val bind : 'a1 prog -> ('a1 -> 'a2 prog) -> 'a2 prog **)
+
+let rec bind p f =
+  match p with
+  | Ret a -> f a
+  | Throw e -> Throw e
+  | Next k -> Next (fun b -> bind (k b) f)
+  | Peek k -> Peek (fun b -> bind (k b) f)
+  | Reserve (n0, k) -> Reserve (n0, (bind k f))
+
+(** val run : 'a1 prog -> n list -> ('a1, err) sum * n list **)
+
+let rec run p inp =
+  match p with
+  | Ret a -> ((Inl a), inp)
+  | Throw e -> ((Inr e), inp)
+  | Next k -> (match inp with
+               | [] -> ((Inr EEnd), [])
+               | b :: r -> run (k b) r)
+  | Peek k ->
+    (match inp with
+     | [] -> ((Inr EEnd), [])
+     | b :: _ -> run (k b) inp)
+  | Reserve (_, k) -> run k inp
+
+(** val frev : 'a1 list -> 'a1 list **)
+
+let frev l =
+  rev_append l []
+
+(** val two64 : n **)
+
+let two64 =
+  Npos (XO (XO (XO (XO (XO (XO (XO (XO (XO (XO (XO (XO (XO (XO (XO (XO (XO
+    (XO (XO (XO (XO (XO (XO (XO (XO (XO (XO (XO (XO (XO (XO (XO (XO (XO (XO
+    (XO (XO (XO (XO (XO (XO (XO (XO (XO (XO (XO (XO (XO (XO (XO (XO (XO (XO
+    (XO (XO (XO (XO (XO (XO (XO (XO (XO (XO (XO
+    XH))))))))))))))))))))))))))))))))))))))))))))))))))))))))))))))))
+
+(** val two63 : n **)
+
+let two63 =
+  Npos (XO (XO (XO (XO (XO (XO (XO (XO (XO (XO (XO (XO (XO (XO (XO (XO (XO
+    (XO (XO (XO (XO (XO (XO (XO (XO (XO (XO (XO (XO (XO (XO (XO (XO (XO (XO
+    (XO (XO (XO (XO (XO (XO (XO (XO (XO (XO (XO (XO (XO (XO (XO (XO (XO (XO
+    (XO (XO (XO (XO (XO (XO (XO (XO (XO (XO
+    XH)))))))))))))))))))))))))))))))))))))))))))))))))))))))))))))))
+
+type major =
+| MU
+| MN
+| MB
+| MT
+| MA
+| MM
+| MTag
+| M7
+
+(** val mcode : major -> n **)
+
+let mcode = function
+| MU -> N0
+| MN -> Npos (XO (XO (XO (XO (XO XH)))))
+| MB -> Npos (XO (XO (XO (XO (XO (XO XH))))))
+| MT -> Npos (XO (XO (XO (XO (XO (XI XH))))))
+| MA -> Npos (XO (XO (XO (XO (XO (XO (XO XH)))))))
+| MM -> Npos (XO (XO (XO (XO (XO (XI (XO XH)))))))
+| MTag -> Npos (XO (XO (XO (XO (XO (XO (XI XH)))))))
+| M7 -> Npos (XO (XO (XO (XO (XO (XI (XI XH)))))))
+
 (** val bUFFER_SIZE : n **)
 
 let bUFFER_SIZE =
@@ -729,18 +892,18 @@ let byte v =
 
 (** val write_int : n -> n -> n -> n list **)
 
-let write_int av value major =
+let write_int av value major0 =
   if N.leb value (Npos (XI (XI (XI (XO XH)))))
-  then if N.leb (Npos XH) av then (N.coq_lor major value) :: [] else []
+  then if N.leb (Npos XH) av then (N.coq_lor major0 value) :: [] else []
   else if N.leb value (Npos (XI (XI (XI (XI (XI (XI (XI XH))))))))
        then if N.leb (Npos (XO XH)) av
-            then (N.coq_lor major (Npos (XO (XO (XO (XI XH)))))) :: (
+            then (N.coq_lor major0 (Npos (XO (XO (XO (XI XH)))))) :: (
                    (byte value) :: [])
             else []
        else if N.leb value (Npos (XI (XI (XI (XI (XI (XI (XI (XI (XI (XI (XI
                  (XI (XI (XI (XI XH))))))))))))))))
             then if N.leb (Npos (XI XH)) av
-                 then (N.coq_lor major (Npos (XI (XO (XO (XI XH)))))) :: (
+                 then (N.coq_lor major0 (Npos (XI (XO (XO (XI XH)))))) :: (
                         (byte (N.shiftr value (Npos (XO (XO (XO XH)))))) :: (
                         (byte value) :: []))
                  else []
@@ -749,7 +912,7 @@ let write_int av value major =
                       (XI (XI (XI (XI (XI (XI (XI
                       XH))))))))))))))))))))))))))))))))
                  then if N.leb (Npos (XI (XO XH))) av
-                      then (N.coq_lor major (Npos (XO (XI (XO (XI XH)))))) :: (
+                      then (N.coq_lor major0 (Npos (XO (XI (XO (XI XH)))))) :: (
                              (byte
                                (N.shiftr value (Npos (XO (XO (XO (XI XH))))))) :: (
                              (byte
@@ -758,7 +921,7 @@ let write_int av value major =
                              (byte value) :: []))))
                       else []
                  else if N.leb (Npos (XI (XO (XO XH)))) av
-                      then (N.coq_lor major (Npos (XI (XI (XO (XI XH)))))) :: (
+                      then (N.coq_lor major0 (Npos (XI (XI (XO (XI XH)))))) :: (
                              (byte
                                (N.shiftr value (Npos (XO (XO (XO (XI (XI
                                  XH)))))))) :: ((byte
@@ -784,9 +947,9 @@ let put e bs =
 
 (** val op_int : n -> n -> n -> enc -> enc * n **)
 
-let op_int need major v e =
+let op_int need major0 v e =
   let e1 = if N.ltb (avail e) need then flush e else e in
-  let bs = write_int (avail e1) v major in
+  let bs = write_int (avail e1) v major0 in
   ((put e1 bs), (N.of_nat (length bs)))
 
 (** val op_fixed : n -> enc -> enc * n **)
@@ -888,9 +1051,9 @@ let rec write_string fuel e bs =
 
 (** val op_string : n -> n list -> enc -> enc * n **)
 
-let op_string major bs e =
+let op_string major0 bs e =
   let e1 = if N.ltb (avail e) (Npos (XI (XO (XO XH)))) then flush e else e in
-  let hd = write_int (avail e1) (N.of_nat (length bs)) major in
+  let hd = write_int (avail e1) (N.of_nat (length bs)) major0 in
   let e2 = put e1 hd in
   ((write_string (S (S (length bs))) e2 bs),
   (N.add (N.of_nat (length hd)) (N.of_nat (length bs))))
@@ -1064,3 +1227,366 @@ let bt_add b e =
   (match e.ev_ts with
    | Some t -> if e.ev_store_time then t :: b.stored else b.stored
    | None -> b.stored) }
+
+(** val dEC_BUFFER_SIZE : n **)
+
+let dEC_BUFFER_SIZE =
+  Npos (XI (XI (XI (XI (XI (XI (XI (XI (XI (XI (XI (XI (XI (XI (XI
+    XH)))))))))))))))
+
+(** val major_of : n -> major **)
+
+let major_of b =
+  let t = N.coq_land b (Npos (XO (XO (XO (XO (XO (XI (XI XH)))))))) in
+  if N.eqb t N0
+  then MU
+  else if N.eqb t (Npos (XO (XO (XO (XO (XO XH))))))
+       then MN
+       else if N.eqb t (Npos (XO (XO (XO (XO (XO (XO XH)))))))
+            then MB
+            else if N.eqb t (Npos (XO (XO (XO (XO (XO (XI XH)))))))
+                 then MT
+                 else if N.eqb t (Npos (XO (XO (XO (XO (XO (XO (XO XH))))))))
+                      then MA
+                      else if N.eqb t (Npos (XO (XO (XO (XO (XO (XI (XO
+                                XH))))))))
+                           then MM
+                           else if N.eqb t (Npos (XO (XO (XO (XO (XO (XO (XI
+                                     XH))))))))
+                                then MTag
+                                else M7
+
+(** val major_eqb : major -> major -> bool **)
+
+let major_eqb a b =
+  N.eqb (mcode a) (mcode b)
+
+(** val read_type : (major * n) prog **)
+
+let read_type =
+  Next (fun b -> Ret ((major_of b),
+    (N.coq_land b (Npos (XI (XI (XI (XI XH))))))))
+
+(** val peek_type : major option prog **)
+
+let peek_type =
+  Peek (fun b -> Ret
+    (if N.eqb b (Npos (XI (XI (XI (XI (XI (XI (XI XH))))))))
+     then None
+     else Some (major_of b)))
+
+(** val read_be : nat -> n -> n prog **)
+
+let rec read_be k acc =
+  match k with
+  | O -> Ret acc
+  | S k' ->
+    Next (fun b ->
+      read_be k'
+        (N.add (N.mul acc (Npos (XO (XO (XO (XO (XO (XO (XO (XO XH))))))))))
+          b))
+
+(** val read_int : n -> n prog **)
+
+let read_int ai =
+  if N.leb ai (Npos (XI (XI (XI (XO XH)))))
+  then Ret ai
+  else if N.eqb ai (Npos (XO (XO (XO (XI XH)))))
+       then read_be (S O) N0
+       else if N.eqb ai (Npos (XI (XO (XO (XI XH)))))
+            then read_be (S (S O)) N0
+            else if N.eqb ai (Npos (XO (XI (XO (XI XH)))))
+                 then read_be (S (S (S (S O)))) N0
+                 else if N.eqb ai (Npos (XI (XI (XO (XI XH)))))
+                      then read_be (S (S (S (S (S (S (S (S O)))))))) N0
+                      else Ret N0
+
+(** val to_i0 : n -> z **)
+
+let to_i0 u =
+  if N.ltb u two63 then Z.of_N u else Z.sub (Z.of_N u) (Z.of_N two64)
+
+(** val neg_of : n -> z **)
+
+let neg_of v =
+  to_i0 (N.modulo (N.sub (N.sub two64 (Npos XH)) v) two64)
+
+(** val bad_ai : n -> bool **)
+
+let bad_ai ai =
+  (&&) (N.leb (Npos (XO (XO (XI (XI XH))))) ai)
+    (N.leb ai (Npos (XO (XI (XI (XI XH))))))
+
+(** val read_unsigned : n prog **)
+
+let read_unsigned =
+  bind read_type (fun ta ->
+    match fst ta with
+    | MU ->
+      if N.leb (Npos (XO (XO (XI (XI XH))))) (snd ta)
+      then Throw EDec
+      else read_int (snd ta)
+    | _ -> Throw EDec)
+
+(** val read_negative : z prog **)
+
+let read_negative =
+  bind read_type (fun ta ->
+    match fst ta with
+    | MN ->
+      if N.leb (Npos (XO (XO (XI (XI XH))))) (snd ta)
+      then Throw EDec
+      else bind (read_int (snd ta)) (fun v -> Ret (neg_of v))
+    | _ -> Throw EDec)
+
+(** val read_integer : z prog **)
+
+let read_integer =
+  bind peek_type (fun pk ->
+    match pk with
+    | Some m ->
+      (match m with
+       | MU -> bind read_unsigned (fun v -> Ret (to_i0 v))
+       | MN -> read_negative
+       | _ -> Throw EDec)
+    | None -> Throw EDec)
+
+(** val read_bool : bool prog **)
+
+let read_bool =
+  bind read_type (fun ta ->
+    match fst ta with
+    | MU ->
+      if N.leb (Npos (XO (XO (XI (XI XH))))) (snd ta)
+      then Throw EDec
+      else bind (read_int (snd ta)) (fun v -> Ret (negb (N.eqb v N0)))
+    | M7 ->
+      if (||) (N.eqb (snd ta) (Npos (XO (XO (XI (XO XH))))))
+           (N.eqb (snd ta) (Npos (XI (XO (XI (XO XH))))))
+      then Ret (N.eqb (snd ta) (Npos (XI (XO (XI (XO XH))))))
+      else Throw EDec
+    | _ -> Throw EDec)
+
+(** val read_break : unit prog **)
+
+let read_break =
+  bind read_type (fun ta ->
+    match fst ta with
+    | M7 ->
+      if N.eqb (snd ta) (Npos (XI (XI (XI (XI XH)))))
+      then Ret ()
+      else Throw EDec
+    | _ -> Throw EDec)
+
+(** val read_bytes : nat -> n -> n list -> n list prog **)
+
+let rec read_bytes g n0 racc =
+  if N.eqb n0 N0
+  then Ret racc
+  else (match g with
+        | O -> Throw EFuel
+        | S g' ->
+          Next (fun b -> read_bytes g' (N.sub n0 (Npos XH)) (b :: racc)))
+
+(** val reserve_req : n -> n **)
+
+let reserve_req n0 =
+  N.min n0 dEC_BUFFER_SIZE
+
+(** val read_chunks : major -> nat -> nat -> n list -> n list prog **)
+
+let rec read_chunks m g fuel racc =
+  match fuel with
+  | O -> Throw EFuel
+  | S fuel' ->
+    bind peek_type (fun pk ->
+      match pk with
+      | Some _ ->
+        bind read_type (fun ta ->
+          if negb (major_eqb (fst ta) m)
+          then Throw EDec
+          else if N.eqb (snd ta) (Npos (XI (XI (XI (XI XH)))))
+               then Throw EDec
+               else bind (read_int (snd ta)) (fun len -> Reserve
+                      ((reserve_req len),
+                      (bind (read_bytes g len racc) (fun racc' ->
+                        read_chunks m g fuel' racc')))))
+      | None -> bind read_break (fun _ -> Ret racc))
+
+(** val read_string : major -> nat -> n -> bool -> n list prog **)
+
+let read_string m g length0 = function
+| true -> bind (read_chunks m g g []) (fun racc -> Ret (frev racc))
+| false ->
+  Reserve ((reserve_req length0),
+    (bind (read_bytes g length0 []) (fun racc -> Ret (frev racc))))
+
+(** val read_xstring : major -> nat -> n list prog **)
+
+let read_xstring m g =
+  bind read_type (fun ta ->
+    if negb (major_eqb (fst ta) m)
+    then Throw EDec
+    else if bad_ai (snd ta)
+         then Throw EDec
+         else bind (read_int (snd ta)) (fun len ->
+                read_string m g len
+                  (N.eqb (snd ta) (Npos (XI (XI (XI (XI XH))))))))
+
+(** val read_bytestring : nat -> n list prog **)
+
+let read_bytestring =
+  read_xstring MB
+
+(** val read_textstring : nat -> n list prog **)
+
+let read_textstring =
+  read_xstring MT
+
+(** val read_xstart : major -> (n * bool) prog **)
+
+let read_xstart m =
+  bind read_type (fun ta ->
+    if negb (major_eqb (fst ta) m)
+    then Throw EDec
+    else if bad_ai (snd ta)
+         then Throw EDec
+         else if N.eqb (snd ta) (Npos (XI (XI (XI (XI XH)))))
+              then Ret (N0, true)
+              else bind (read_int (snd ta)) (fun n0 -> Ret (n0, false)))
+
+(** val read_array_start : (n * bool) prog **)
+
+let read_array_start =
+  read_xstart MA
+
+(** val read_map_start : (n * bool) prog **)
+
+let read_map_start =
+  read_xstart MM
+
+(** val loop_n : unit prog -> nat -> n -> unit prog **)
+
+let rec loop_n sk g n0 =
+  if N.eqb n0 N0
+  then Ret ()
+  else (match g with
+        | O -> Throw EFuel
+        | S g' -> bind sk (fun _ -> loop_n sk g' (N.sub n0 (Npos XH))))
+
+(** val loop_indef : unit prog -> nat -> unit prog **)
+
+let rec loop_indef sk = function
+| O -> Throw EFuel
+| S g' ->
+  bind peek_type (fun pk ->
+    match pk with
+    | Some _ -> bind sk (fun _ -> loop_indef sk g')
+    | None -> Next (fun _ -> Ret ()))
+
+(** val skip : nat -> nat -> unit prog **)
+
+let rec skip g = function
+| O -> Throw EFuel
+| S f' ->
+  bind read_type (fun ta ->
+    let ai = snd ta in
+    (match fst ta with
+     | MU ->
+       if N.leb (Npos (XO (XO (XI (XI XH))))) ai
+       then Throw EDec
+       else bind (read_int ai) (fun _ -> Ret ())
+     | MN ->
+       if N.leb (Npos (XO (XO (XI (XI XH))))) ai
+       then Throw EDec
+       else bind (read_int ai) (fun _ -> Ret ())
+     | MA ->
+       if bad_ai ai
+       then Throw EDec
+       else if N.eqb ai (Npos (XI (XI (XI (XI XH)))))
+            then loop_indef (skip g f') g
+            else bind (read_int ai) (fun n0 -> loop_n (skip g f') g n0)
+     | MM ->
+       if bad_ai ai
+       then Throw EDec
+       else if N.eqb ai (Npos (XI (XI (XI (XI XH)))))
+            then loop_indef (skip g f') g
+            else bind (read_int ai) (fun n0 ->
+                   loop_n (skip g f') g (N.mul (Npos (XO XH)) n0))
+     | MTag ->
+       if N.leb (Npos (XO (XO (XI (XI XH))))) ai
+       then Throw EDec
+       else bind (read_int ai) (fun _ -> skip g f')
+     | M7 ->
+       if bad_ai ai then Throw EDec else bind (read_int ai) (fun _ -> Ret ())
+     | _ ->
+       if bad_ai ai
+       then Throw EDec
+       else bind (read_int ai) (fun n0 ->
+              bind
+                (read_string (fst ta) g n0
+                  (N.eqb ai (Npos (XI (XI (XI (XI XH))))))) (fun _ -> Ret ()))))
+
+(** val skip_item : nat -> unit prog **)
+
+let skip_item g =
+  skip g g
+
+type phys = { win : n list; rest : n list; eof : bool }
+
+(** val ended : phys -> phys **)
+
+let ended s =
+  { win = []; rest = s.rest; eof = true }
+
+(** val refill : n -> phys -> phys option **)
+
+let refill b s =
+  if s.eof
+  then None
+  else let chunk = firstn (N.to_nat b) s.rest in
+       (match chunk with
+        | [] -> None
+        | _ :: _ ->
+          Some { win = chunk; rest = (skipn (N.to_nat b) s.rest); eof =
+            (N.ltb (N.of_nat (length chunk)) b) })
+
+(** val ensure : n -> phys -> phys option **)
+
+let ensure b s =
+  match s.win with
+  | [] -> refill b s
+  | _ :: _ -> Some s
+
+(** val run_phys : n -> 'a1 prog -> phys -> ('a1, err) sum * phys **)
+
+let rec run_phys b p s =
+  match p with
+  | Ret a -> ((Inl a), s)
+  | Throw e -> ((Inr e), s)
+  | Next k ->
+    (match ensure b s with
+     | Some s' ->
+       (match s'.win with
+        | [] -> ((Inr EEnd), (ended s'))
+        | b0 :: w ->
+          run_phys b (k b0) { win = w; rest = s'.rest; eof = s'.eof })
+     | None -> ((Inr EEnd), (ended s)))
+  | Peek k ->
+    (match ensure b s with
+     | Some s' ->
+       (match s'.win with
+        | [] -> ((Inr EEnd), (ended s'))
+        | b0 :: _ -> run_phys b (k b0) s')
+     | None -> ((Inr EEnd), (ended s)))
+  | Reserve (_, k) -> run_phys b k s
+
+(** val logical : phys -> n list **)
+
+let logical s =
+  app s.win s.rest
+
+(** val phys_init : n list -> phys **)
+
+let phys_init input =
+  { win = []; rest = input; eof = false }
